@@ -43,7 +43,8 @@ func (t *MemoryDevice) UpdateEmergency(_ context.Context, request *traits.Update
 	update, err := t.state.Set(request.Emergency, resource.WithUpdateMask(request.UpdateMask), resource.InterceptAfter(func(old, new proto.Message) {
 		// user server time if the level changed but the change time didn't
 		oldt, newt := old.(*traits.Emergency), new.(*traits.Emergency)
-		if newt.Level != oldt.Level && oldt.LevelChangeTime == newt.LevelChangeTime {
+		// new is a clone of old with the request merged in: compare the times by value, the pointers only ever match when both are nil
+		if newt.Level != oldt.Level && proto.Equal(oldt.LevelChangeTime, newt.LevelChangeTime) {
 			newt.LevelChangeTime = serverTimestamp()
 		}
 	}))
